@@ -581,7 +581,9 @@ def main(pid):
                     bad = (cases[idx], o)
                     break
             case = bad[0] if bad else None
-            if case:
+            if case and "WATCHDOG" in bad[1]:
+                pass        # non-termination: every probe of a shrink would cost the 30 s watchdog; keep the case whole
+            elif case:
                 lo, hi = 1, len(case.split()) - 1
                 while lo < hi:
                     mid = (lo + hi) // 2
